@@ -123,3 +123,7 @@ LEVEL_TEXT = ('Lean 4 theorems for every axis, position and rule: the range kern
 LEVEL_NOTE = ('Trusted: Lean kernel; IEEE-754 order facts stated as hypotheses (linear order, == is equality, exact floor/ceil below 2^53, '
               '0*si+off == off); hand-written model lean/NixModel/Index.lean validated bit-exactly each run; harness; positions restricted to '
               'finite |p| < 4e15.')
+
+def minimal(f):
+    decl = [l for l in f.case.lines[:f.line_no] if l.startswith('axis_')][-1:]
+    return decl + [f.case.lines[f.line_no]]
